@@ -5,6 +5,7 @@
    and deletion record as harness/c12.py:SelDevice. *)
 From Coq Require Import NArith ZArith List Bool.
 From PyIpmi Require Import Lib.Res Lib.Bytes Lib.Prog Model.SelIO Corr.C10.
+From PyIpmi Require Model.Helper.
 Import ListNotations.
 Open Scope N_scope.
 
@@ -40,3 +41,55 @@ Definition chk_seldev (log : list (list N)) (limit resv : N) (valid : bool)
   let '(rps, s') := dev_replies sel_dev (mkSelDev log limit resv valid plan []) (map fst ex) in
   list_eqb reply_eqb rps (map snd ex)
   && list_eqb bytes_eqb (sd_log s') final_log && list_eqb bytes_eqb (sd_deleted s') final_deleted.
+
+(* clear_sel: replay of the model prog (requests, sleeps, outcome) AND agreement with C13's
+   model of helper.clear_repository_helper (Model/Helper.v, an outcome-oracle function): the
+   recorded exchanges, read as the outcomes of reserve_fn / clear_fn, make that model issue the
+   same calls with the same reservations, the same sleeps and the same final outcome. *)
+Definition res_outcome (r : res N) : Helper.outcome :=
+  match r with Ok v => Helper.OVal v | Err (CCError cc) => Helper.OCc cc | Err e => Helper.OExc e end.
+Definition outcome_of (x : request * reply) : Helper.outcome :=
+  match snd x with
+  | RRaise (CCError cc) => Helper.OCc cc
+  | RRaise e => Helper.OExc e
+  | RBytes d => if q_cmd (fst x) =? CMD_RESERVE_SEL then res_outcome (dec_id16 d) else res_outcome (dec_clear d)
+  end.
+Definition call_eqb (c : Helper.call) (r : request) : bool :=
+  match c with
+  | Helper.CReserve => request_eqb r reserve_req
+  | Helper.CClear ctrl resv => request_eqb r (clear_req resv ctrl)
+  | _ => false
+  end.
+Definition outcome_eqb (a b : Helper.outcome) : bool :=
+  match a, b with
+  | Helper.OVal x, Helper.OVal y => x =? y
+  | Helper.OCc x, Helper.OCc y => x =? y
+  | Helper.OExc e, Helper.OExc f => err_class_eqb e f
+  | _, _ => false
+  end.
+Fixpoint ev_calls (l : list Helper.event) : list (Helper.call * Helper.outcome) :=
+  match l with
+  | [] => []
+  | Helper.ECall c o :: r => (c, o) :: ev_calls r
+  | Helper.ESleep _ :: r => ev_calls r
+  end.
+Fixpoint ev_sleeps (l : list Helper.event) : list N :=
+  match l with
+  | [] => []
+  | Helper.ECall _ _ :: r => ev_sleeps r
+  | Helper.ESleep ms :: r => ms :: ev_sleeps r
+  end.
+Fixpoint calls_match (cs : list (Helper.call * Helper.outcome)) (ex : list (request * reply)) : bool :=
+  match cs, ex with
+  | [], [] => true
+  | (c, o) :: cs', x :: ex' => call_eqb c (fst x) && outcome_eqb o (outcome_of x) && calls_match cs' ex'
+  | _, _ => false
+  end.
+Definition chk_clear (retry : nat) (ex : list (request * reply)) (sleeps : list N) (exp : res unit) : bool :=
+  let '(out, reqs, sl, rest) := replay (clear_sel retry) (map snd ex) [] [] in
+  out_eqb (fun _ _ => true) out exp && list_eqb request_eqb reqs (map fst ex)
+  && match rest with [] => true | _ => false end
+  && list_eqb N.eqb sl sleeps
+  && (let '(evs, hres, os') := Helper.clear_repository_helper retry None (map outcome_of ex) in
+      calls_match (ev_calls evs) ex && list_eqb N.eqb (ev_sleeps evs) sleeps
+      && out_eqb (fun _ _ => true) hres exp && match os' with [] => true | _ => false end).
